@@ -14,6 +14,9 @@ Require Import Urcu.Lfs.LfsProof.
 Require Import Urcu.Lfs.LfsLin.
 Require Import Urcu.Wfs.WfsPriv.
 Require Import Urcu.Wfs.WfsLin.
+Require Import Urcu.LfsRcu.LfsRcu.
+Require Import Urcu.LfsRcu.LfsRcuProof.
+Require Import Urcu.LfsRcu.LfsRcuExec.
 Import ListNotations.
 Local Open Scope N_scope.
 
@@ -32,35 +35,38 @@ Print Assumptions C11_wfstack_end_is_source_constant.
 
 (* lfstack (push / mutex-protected pop and pop_all / empty, popped nodes pushed again), any number of threads, every schedule: the memory chain from head spells the ghost stack (order of successful head exchanges), every node is in the stack or owned by exactly one thread, poppers are mutually excluded, and a popper's saved next pointer is still its node's successor at the cmpxchg (no ABA) *)
 Theorem C11_lfstack_chain_all_schedules :
-    forall (cs : list choice) (s : st) (stk : list N),
-    Inv s stk -> Inv (fst (grun cs (s, stk))) (snd (grun cs (s, stk))).
+    forall (cs : list choice) (s : LfsLin.st) (stk : list N),
+    LfsProof.Inv s stk -> LfsProof.Inv (fst (grun cs (s, stk))) (snd (grun cs (s, stk))).
 Proof. exact (@Urcu.Lfs.LfsProof.lfs_chain_all_schedules). Qed.
 Print Assumptions C11_lfstack_chain_all_schedules.
 
 (* the initial state of any program that pushes distinct non-null nodes satisfies the invariant *)
 Theorem C11_lfstack_initial_state :
     forall threads : nat -> list lop,
-    (forall t : nat, NoDup (pushes (threads t)) /\ ~ In 0 (pushes (threads t))) ->
-    (forall (t u : nat) (x : N), t <> u -> In x (pushes (threads t)) -> ~ In x (pushes (threads u))) ->
-    Inv (init_state threads) [].
+    (forall t : nat, NoDup (LfsProof.pushes (threads t)) /\ ~ In 0 (LfsProof.pushes (threads t))) ->
+    (forall (t u : nat) (x : N),
+    t <> u -> In x (LfsProof.pushes (threads t)) -> ~ In x (LfsProof.pushes (threads u))) ->
+    LfsProof.Inv (init_state threads) [].
 Proof. exact (@Urcu.Lfs.LfsProof.Inv_initial). Qed.
 Print Assumptions C11_lfstack_initial_state.
 
 (* a pop whose cmpxchg succeeds removes the top of the ghost stack and leaves the chain of the rest *)
 Theorem C11_lfstack_pop_takes_top :
-    forall (s : st) (stk : list N) (t : nat) (h nx : N),
-    Inv s stk ->
-    lcur (TS s t) = O_Cas h nx -> M s LHead = h -> exists l : list N, stk = h :: l /\ chainm (M s) nx l.
+    forall (s : LfsLin.st) (stk : list N) (t : nat) (h nx : N),
+    LfsProof.Inv s stk ->
+    lcur (TS s t) = Lfs.O_Cas h nx ->
+    M s LHead = h -> exists l : list N, stk = h :: l /\ LfsProof.chainm (M s) nx l.
 Proof. exact (@Urcu.Lfs.LfsProof.pop_takes_top). Qed.
 Print Assumptions C11_lfstack_pop_takes_top.
 
 (* lfstack model (push, mutex-protected pop / pop_all, empty, reuse of popped nodes), any number of threads and programs over distinct fresh nodes, every schedule: the history - push with its was-non-empty answer, pop (top or NULL), pop_all (whole stack, by its top node), empty - is accepted by the LIFO automaton; linearisation points: successful head cmpxchg of push / pop, head load of a pop that sees NULL, head exchange of pop_all, head load of empty *)
 Theorem C11_lfstack_linearizable_lifo :
     forall threads : nat -> list lop,
-    (forall t : nat, NoDup (pushes (threads t)) /\ ~ In 0 (pushes (threads t))) ->
-    (forall (t u : nat) (x : N), t <> u -> In x (pushes (threads t)) -> ~ In x (pushes (threads u))) ->
+    (forall t : nat, NoDup (LfsProof.pushes (threads t)) /\ ~ In 0 (LfsProof.pushes (threads t))) ->
+    (forall (t u : nat) (x : N),
+    t <> u -> In x (LfsProof.pushes (threads t)) -> ~ In x (LfsProof.pushes (threads u))) ->
     forall cs : list choice,
-    exists (a' : LfsLin.ast) (L : list (op sop N)),
+    exists (a' : LfsLin.ast) (L : list (Lin.op sop N)),
     LfsLin.runl LfsLin.a0 (LfsLin.gtrace cs (init_state threads, [])) = Some (a', L) /\
     legal sop N (list N) lspec [] L /\
     (forall t : nat,
@@ -94,7 +100,7 @@ Theorem C11_wfstack_linearizable_lifo :
     NoDup (Wfs.pushes (threads t)) /\ (forall n : N, In n (Wfs.pushes (threads t)) -> 2 <= n)) ->
     (forall (t u : nat) (x : N), In x (Wfs.pushes (threads t)) -> In x (Wfs.pushes (threads u)) -> t = u) ->
     forall cs : list MachE.choice,
-    exists (a' : ast) (L : list (op wop (list N))),
+    exists (a' : ast) (L : list (Lin.op wop (list N))),
     runl a0 (gtrace cs (WfsRun.init_state threads, [], p0)) = Some (a', L) /\
     legal wop (list N) (list N) wspec [] L /\
     (forall t : nat,
@@ -103,4 +109,45 @@ Theorem C11_wfstack_linearizable_lifo :
     pre wop (list N) (pm wop (list N) (list N) a' t)).
 Proof. exact (@Urcu.Wfs.WfsLin.wfs_linearizable). Qed.
 Print Assumptions C11_wfstack_linearizable_lifo.
+
+(* legacy cds_lfs_rcu (no mutex: any number of concurrent pushers and poppers, poppers inside read-side sections, popped nodes pushed again only after a grace period), every schedule: the memory chain spells the abstract stack, every node has exactly one owner, a popper's held reference is either still in the stack with an unchanged link or protected by its section *)
+Theorem C11_rculfstack_invariant_all_schedules :
+    forall (NT : nat) (threads : nat -> list op),
+    (forall t : nat, NoDup (pushes (threads t)) /\ ~ In 0 (pushes (threads t))) ->
+    (forall (t u : nat) (n : N), In n (pushes (threads t)) -> In n (pushes (threads u)) -> t = u) ->
+    (forall t : nat, (NT <= t)%nat -> threads t = []) ->
+    forall cs : list nat, Inv NT (run NT true cs (init threads)).
+Proof. exact (@Urcu.LfsRcu.LfsRcuProof.rculfs_invariant_all_schedules). Qed.
+Print Assumptions C11_rculfstack_invariant_all_schedules.
+
+(* no ABA: when a popper's cmpxchg succeeds the node it takes is the top of the abstract stack and the successor it installs is the node below - however long it was delayed between its loads and the cmpxchg *)
+Theorem C11_rculfstack_pop_never_stale :
+    forall (NT : nat) (s : st) (t : nat) (h nx : N),
+    Inv NT s ->
+    tpc (th s t) = O_Cas h nx ->
+    head s = h ->
+    exists l : list N,
+    stk s = h :: l /\
+    chainm (nxt s) nx l /\
+    stk (step NT true t s) = l /\
+    head (step NT true t s) = nx /\ tpc (th (step NT true t s) t) = O_Exit h.
+Proof. exact (@Urcu.LfsRcu.LfsRcuProof.pop_cmpxchg_never_stale). Qed.
+Print Assumptions C11_rculfstack_pop_never_stale.
+
+(* sensitivity: with immediate reuse a delayed popper installs a node another thread owns (concrete three-thread run): the grace period is what excludes ABA *)
+Theorem C11_rculfstack_reuse_without_grace_period_refuted :
+    let s := run 3 false aba_sched (init aba_threads) in
+    ~ chainm (nxt s) (head s) (stk s) /\ head s = 3 /\ stk s = [2].
+Proof. exact (@Urcu.LfsRcu.LfsRcuProof.reuse_without_grace_period_refuted). Qed.
+Print Assumptions C11_rculfstack_reuse_without_grace_period_refuted.
+
+(* every action sequence accepted by the executable acceptor fed with the projected traces of static/rculfstack.h keeps that invariant *)
+Theorem C11_accepted_rculfstack_trace_keeps_invariant :
+    forall (NT : nat) (threads : nat -> list op),
+    (forall t : nat, NoDup (pushes (threads t)) /\ ~ In 0 (pushes (threads t))) ->
+    (forall (t u : nat) (n : N), In n (pushes (threads t)) -> In n (pushes (threads u)) -> t = u) ->
+    (forall t : nat, (NT <= t)%nat -> threads t = []) ->
+    forall (l : list ract) (s : st), rrun NT l (init threads) = Some s -> Inv NT s.
+Proof. exact (@Urcu.LfsRcu.LfsRcuExec.accepted_rculfs_trace_keeps_invariant). Qed.
+Print Assumptions C11_accepted_rculfstack_trace_keeps_invariant.
 
